@@ -21,6 +21,7 @@ import (
 	"fmt"
 	"reflect"
 	"regexp"
+	"sort"
 	"time"
 	"unicode"
 	"unicode/utf8"
@@ -337,18 +338,38 @@ func normalizeMapInto(cfg *Config, opts *options, from reflect.Value) Error {
 		return raiseKeyInvalidTypeMerge(cfg, from.Type())
 	}
 
-	for _, k := range from.MapKeys() {
+	// visit the entries in the order of their names: which of two faulty or
+	// conflicting entries gets reported must not depend on the runtime's map order
+	keys := from.MapKeys()
+	names := make([]string, len(keys))
+	for i, k := range keys {
 		k = chaseValueInterfaces(k)
 		if k.Kind() != reflect.String {
 			return raiseKeyInvalidTypeMerge(cfg, from.Type())
 		}
+		names[i] = k.String()
+	}
+	sort.Sort(&entriesByName{names, keys})
 
-		err := normalizeSetField(cfg, opts, noTagOpts, k.String(), from.MapIndex(k))
+	for i, k := range keys {
+		err := normalizeSetField(cfg, opts, noTagOpts, names[i], from.MapIndex(k))
 		if err != nil {
 			return err
 		}
 	}
 	return nil
+}
+
+type entriesByName struct {
+	names []string
+	keys  []reflect.Value
+}
+
+func (e *entriesByName) Len() int           { return len(e.names) }
+func (e *entriesByName) Less(i, j int) bool { return e.names[i] < e.names[j] }
+func (e *entriesByName) Swap(i, j int) {
+	e.names[i], e.names[j] = e.names[j], e.names[i]
+	e.keys[i], e.keys[j] = e.keys[j], e.keys[i]
 }
 
 func normalizeStruct(opts *options, from reflect.Value) (*Config, Error) {
